@@ -206,8 +206,9 @@ def broadcast(rng, tier):
                         fails.append(dict(clause='broadcast_raises', signature=f'{gname}.{oname} {s1}x{s2}', error=f'{type(e).__name__}: {e}'[:160])); continue
                     evals += 1
                     rt = r.tensor() if hasattr(r, 'ltype') else r
-                    if tuple(rt.shape[:-1]) != tuple(out):
-                        fails.append(dict(clause='broadcast_shape', signature=f'{gname}.{oname} {s1}x{s2}', got=list(rt.shape), want=list(out))); continue
+                    width = {'Mul': X.shape[-1], 'Retr': X.shape[-1], 'Act': 3, 'Act4': 4}.get(oname, a.shape[-1])
+                    if tuple(rt.shape) != tuple(out) + (width,):          # the documented shape: broadcast lshape + item width, also for empty batches
+                        fails.append(dict(clause='broadcast_shape', signature=f'{gname}.{oname} {s1}x{s2}', got=list(rt.shape), want=list(out) + [width])); continue
                     if is_lie != hasattr(r, 'ltype'):
                         fails.append(dict(clause='result_ltype', signature=f'{gname}.{oname}')); continue
                     if rt.numel() == 0: continue
@@ -222,8 +223,9 @@ def broadcast(rng, tier):
                 for oname, f in (('Inv', lambda z: z.Inv()), ('Log', lambda z: z.Log()), ('matrix', lambda z: z.matrix())):
                     r = f(X); evals += 1
                     rt = r.tensor() if hasattr(r, 'ltype') else r
-                    lead = rt.shape[:-1] if oname != 'matrix' else rt.shape[:-2]
-                    if tuple(lead) != tuple(s1): fails.append(dict(clause='unary_shape', signature=f'{gname}.{oname} {s1}'))
+                    msz = 4 if gname in ('SE3', 'Sim3') else 3
+                    want = tuple(s1) + ((msz, msz) if oname == 'matrix' else (X.shape[-1],) if oname == 'Inv' else (X.shape[-1] - 1,))
+                    if tuple(rt.shape) != want: fails.append(dict(clause='unary_shape', signature=f'{gname}.{oname} {s1}', got=list(rt.shape), want=list(want)))
             if len(fails) > 10: break
         if len(fails) > 10: break
     return dict(evaluations=evals, distinct_nontrivial=pairs, rule='all ordered pairs of lshapes from the stated set that torch can broadcast; each (group, op, pair) is one evaluation; non-trivial: every pair',
@@ -253,7 +255,9 @@ def handled(rng, tier):
         'index_copy': lambda t, u: t.index_copy(0, idx, u), 'index_copy_': None, 'select': lambda t, u: t.select(0, 1), 'select_scatter': lambda t, u: t.select_scatter(u[0], 0, 1),
         'index_put': lambda t, u: t.index_put((idx,), u), 'index_put_': None, 'copy_': None}
     fails = []; evals = 0; covered = []
-    for name in dict.fromkeys(HANDLED_FUNCTIONS):
+    # the names are those of the pinned tree's list (each with a call form above) plus whatever the current list adds: a shape-only
+    # function that DROPS OUT of the list silently returns a plain Tensor - that is the regression this clause exists for
+    for name in dict.fromkeys(list(calls) + list(HANDLED_FUNCTIONS)):
         f = calls.get(name)
         if f is None: continue
         try:
@@ -269,7 +273,6 @@ def handled(rng, tier):
     # ltype with the same item width, or a plain tensor)
     aux = {'sim3 LieTensor': pp.randn_sim3(2, 3, dtype=d), 'plain tensor': torch.randn(2, 3, 7, dtype=d)}
     for name in ('view_as', 'expand_as', 'index_copy', 'select_scatter', 'index_put'):
-        if name not in HANDLED_FUNCTIONS: continue
         for what, U in aux.items():
             try:
                 r = calls[name](X, U); ref = calls[name](X.tensor(), U.tensor() if hasattr(U, 'ltype') else U)
